@@ -278,7 +278,12 @@ impl Sweep for Limits {
         let cases = limit_cases();
         if shard == cases.len() {
             // slots of variables set back to 0 / "" are freed: 90 000 distinct elements, one at a time
-            let lines: Vec<String> = ["10 DIM A(300,300),S$(300,300)", "20 FOR I=0 TO 299:FOR J=0 TO 299:A(I,J)=1:A(I,J)=0:S$(I,J)=\"x\":S$(I,J)=\"\":NEXT J,I", "30 PRINT \"done\";I:END"]
+            // (also zeros that only arise from the conversion to the element's type)
+            let lines: Vec<String> = [
+                "10 DIM A(300,300),S$(300,300),C%(300,300),F!(300,300)",
+                "20 FOR I=0 TO 299:FOR J=0 TO 299:A(I,J)=1:A(I,J)=0:S$(I,J)=\"x\":S$(I,J)=\"\":C%(I,J)=1:C%(I,J)=C%(I,J)/2:F!(I,J)=1:F!(I,J)=1D-60:NEXT J,I",
+                "30 PRINT \"done\";I:END",
+            ]
                 .iter()
                 .map(|s| s.to_string())
                 .collect();
